@@ -17,8 +17,15 @@
 // Protocol (fields separated by one space):
 //
 //	sched <K> <step>;<step>;…      K = number of backend addresses (1..6)
-//	stress <N> <seed>              un-forced concurrency (see stress.go)
-//	static defer                   the syntactic premise of dec_on_every_exit (see static.go)
+//	stress <N> <seed>              un-forced concurrency: N requests with scripted fates at once plus a
+//	                               concurrent reload (stress.go); answer = the interleaving-independent totals
+//	                               `n= ok= err= panic= inc= dec= fail= forget= end=<in-flight>/<fails>`
+//	static defer                   the syntactic premise of dec_on_every_exit, checked on the source the
+//	                               harness was built from (stress.go: runStatic); answer `defer-ok`
+//
+// Every handler is provisioned with selection policy `first`, keep-alive off, handle_response
+// routes for the probe handler, and — when retries > 0 — try_interval 4ms, so that tryAgain of
+// an already unloaded configuration takes its ctx.Done() branch (no retry).
 //
 // steps:
 //
@@ -58,7 +65,6 @@ import (
 	"net/http/httptest"
 	"os"
 	"path/filepath"
-	"runtime"
 	"strconv"
 	"strings"
 	"sync"
@@ -1136,5 +1142,3 @@ func schedLine(K int, steps []step) string {
 	}
 	return fmt.Sprintf("sched %d %s", K, strings.Join(parts, ";"))
 }
-
-var _ = runtime.NumCPU
